@@ -114,9 +114,12 @@ impl<H: RangeBounds<u32>, V: RangeBounds<u32>> From<(H, V)> for Rect<u32> {
     /// Creates a `Rect` from two ranges specifying the horizontal and
     /// vertical extents of the `Rect` respectively.
     fn from((horiz, vert): (H, V)) -> Self {
-        let resolve = |b, i, e| match b {
-            Included(&x) => Some(x + i),
-            Excluded(&x) => Some(x + e),
+        // An inclusive end (or exclusive start) of `u32::MAX` has no exact
+        // half-open equivalent; saturate rather than overflow. The result is
+        // still beyond any possible buffer or frame
+        let resolve = |b: core::ops::Bound<&u32>, i, e| match b {
+            Included(&x) => Some(x.saturating_add(i)),
+            Excluded(&x) => Some(x.saturating_add(e)),
             Unbounded => None,
         };
         let left = resolve(horiz.start_bound(), 0, 1);
